@@ -48,6 +48,7 @@ Proof. intros. repeat split. Qed.
 
 Theorem component_context_source_shape :
   cc_delegates_to_surrounding_context = true /\ cc_optional_never_waits = true /\
-  cc_lookup_before_waiting = true /\ cc_wait_filters_by_name = true /\
+  cc_lookup_before_waiting = true /\ cc_waits_only_when_the_requested_resource_is_missing = true /\
+  cc_wait_filters_by_name = true /\
   cc_wait_filters_by_type_membership = true /\ cc_lookup_again_after_wake = true.
 Proof. repeat split. Qed.
